@@ -732,6 +732,7 @@ class NetworkGraph(AbstractBaseIR):
         # step 2: process incoming edges
         source_vars, args = {}, {}
         eqs, in_vars = [], []
+        covered = set()  # entries of a vectorized target variable that receive at least one edge
         for i, (weight, sidx, tidx, (snode, sop, svar), edge_ir, edge_var_map) in \
                 enumerate(zip(weights, source_indices, target_indices, sources, edge_irs, edge_var_maps)):
 
@@ -768,6 +769,7 @@ class NetworkGraph(AbstractBaseIR):
                                    'dtype': 'float', 'shape': (1,)}
                     eqs.append(f"{t_str} = {w_str} * vsum({s_str})")
                 in_vars.append(t_str)
+                covered.update(range(tsize))
                 continue
 
             # case 0: matrix edge — weight is a 2-D numpy array supplied directly
@@ -886,6 +888,7 @@ class NetworkGraph(AbstractBaseIR):
                         eqs.append(f"{t_str} = wsum({w_str}, {final_expr})")
 
                 in_vars.append(t_str)
+                covered.update(range(tsize))
                 continue
 
             # get source variable size
@@ -901,6 +904,7 @@ class NetworkGraph(AbstractBaseIR):
             if not tidx:
                 tidx = [0 for _ in range(len(sidx))]
             n, m = len(tidx), len(sidx)
+            covered.update(tidx)
             if len(np.unique(tidx)) < len(tidx):
                 if not sidx:
                     sidx = [i for i in range(len(weight))]
@@ -967,6 +971,23 @@ class NetworkGraph(AbstractBaseIR):
             in_vars.append(t_str)
 
         # step 3: process multiple inputs to same variable
+        uncovered = [idx for idx in range(tsize) if idx not in covered] if tsize > 1 else []
+        if uncovered:
+
+            # entries of a vectorized target variable without any incoming edge: they keep the declared default of the
+            # variable, unless operators of the target node feed the variable as well (then the edges contribute zero)
+            default = np.zeros((tsize,)) + np.asarray(tval['value'])
+            if self[tnode][top]['inputs'].get(tvar, {}).get('sources'):
+                if not multiple_inputs:
+                    default[uncovered] = 0.0
+                    tval = dict(tval)
+                    tval['value'] = default
+            elif multiple_inputs and np.any(default[uncovered]):
+                d_str = f'{tvar}_in{len(in_vars)}'
+                default[sorted(covered)] = 0.0
+                args[d_str] = {'vtype': 'constant', 'value': default, 'dtype': tval['dtype'], 'shape': (tsize,)}
+                in_vars.append(d_str)
+
         if multiple_inputs:
 
             # finalize edge equations
